@@ -419,7 +419,7 @@ fn probe() {
     let m1 = (1..100_000_000usize).find(|m| root(2, *m) < 2);
     println!("smallest max_iter with root(2, max_iter) = 1: {m1:?}");
     // (2) strictly positive weights far below f64::EPSILON
-    for scale in [1.0f64, 1e-12, 1e-15, 1e-16, 1e-17, 1e-20] {
+    for scale in [1.0f64, 1e-12, 1e-15, 1e-16, 1e-17, 1e-20, 1e300, 1e308] {
         let n = 8usize;
         let points: Vec<PointND<2>> = (0..n).map(|i| PointND::<2>::new(i as f64, (i % 3) as f64)).collect();
         let weights: Vec<f64> = vec![scale; n];
